@@ -286,7 +286,7 @@ def ensure_build() -> tuple[bool, str]:
 
 GEN_UNITS = {  # property -> units of Gen/Source.v its source-level theorems are about
     "C03": [f"{c}_validate" for c in ("TimeStamp", "TimeInterval", "Point", "LineString", "Polygon", "BoundingBox", "MultiPoint", "MultiLineString", "MultiPolygon")] + ["MAX_FREQUENCY"],
-    "C06": ["compute_affinity_in_time", "TIME_GEOMETRY_TYPES", "BUFFER_GEOMETRY_TYPES", "geometry_to_shapely", "compute_bounds_py"],
+    "C06": ["compute_affinity_in_time", "compute_affinity_area_tail", "TIME_GEOMETRY_TYPES", "BUFFER_GEOMETRY_TYPES", "geometry_to_shapely", "compute_bounds_py"],
     "C11": ["buffer_timestamp", "buffer_interval", "buffer_bounding_box_geometry", "buffer_geometry", "MAX_FREQUENCY"],
     "C12": ["intervals_overlap", "have_temporal_overlap", "have_frequency_overlap", "is_in_clip", "geometry_to_shapely", "compute_bounds_py"],
     "C14": ["segment_clip"],
